@@ -4,12 +4,12 @@ CONSTANTS
   CurDrive = 67
   AsCodedDots = FALSE
   AsCodedNames = TRUE
-  MaxLen = 3
-  MaxFiles = 2
-  Alphabet = {65, 98, 46, 32, 42}
+  MaxLen = 2
+  MaxFiles = 1
+  Alphabet = {65, 98, 46, 32}
 VIEW View
 CONSTRAINT Bound
-INVARIANT Accepted
+PROPERTY Accepted
 INVARIANT UpperLegal
 INVARIANT FoundUnderAnyCase
 INVARIANT ListingOpens
